@@ -229,7 +229,11 @@ def spec_indexes(decl, dialect):
     out = []
     for ix in decl.get('indexes', []):
         name = ix['name'] if dialect == 'mysql' else t + '_' + ix['name']
-        out.append([t, name, [spec_dbname(decl, spec_resolve(decl, n)) for n, _ in ix['cols']], bool(ix['unique'])])
+        cols = []
+        for n, ln in ix['cols']:
+            dbn = spec_dbname(decl, spec_resolve(decl, n))
+            cols.append([dbn, ln] if (dialect == 'mysql' and ln is not None) else dbn)
+        out.append([t, name, cols, bool(ix['unique'])])
     return out
 
 
@@ -370,7 +374,12 @@ def py_read_index(toks):
         for seg in _split_top(rest[1:-1]):
             if seg[0][0] != 'W':
                 return None
-            cols.append(seg[0][1])
+            if len(seg) == 1:
+                cols.append(seg[0][1])
+            elif len(seg) == 4 and seg[1] == ['('] and seg[2][0] == 'W' and seg[2][1].isdigit() and seg[3] == [')']:
+                cols.append([seg[0][1], int(seg[2][1])])
+            else:
+                return None
         return [table, name, cols, uq]
     except (IndexError, TypeError):
         return None
@@ -603,7 +612,12 @@ def gen_idem_case(rng):
         c['a']['indexes'].append({'name': 'ix', 'cols': [['x', None]], 'unique': rng.random() < 0.5})
     ops = []
     for _ in range(rng.randint(2, 6)):
-        ops.append([rng.choice(['create', 'create', 'drop']), rng.choice(['a', 'a', 'b']), rng.random() < 0.75])
+        r = rng.random()
+        if r < 0.12:
+            # somebody drops the class's table behind SQLObject's back (the link table stays)
+            ops.append(['rawdrop', rng.choice(['a', 'a', 'b']), False])
+        else:
+            ops.append([rng.choice(['create', 'create', 'drop']), rng.choice(['a', 'a', 'b']), rng.random() < 0.75])
     return {'k': 'idem', 'a': c['a'], 'b': c['b'], 'ops': ops}
 
 
@@ -684,6 +698,7 @@ def generate(rng, tier):
     # malformed stream: declarations the constructors or the renderers refuse
     for _ in range(60 if tier == 'quick' else 600):
         c = gen_decl_case(rng, maxcols=2, exec_=False)
+        c['decl']['indexes'] = []
         col = c['decl']['cols'][0]
         r = rng.random()
         if r < 0.4:
@@ -1102,8 +1117,10 @@ def run_idem(case):
             try:
                 if op == 'create':
                     cls.createTable(ifNotExists=flag)
-                else:
+                elif op == 'drop':
                     cls.dropTable(ifExists=flag)
+                else:
+                    conn.query('DROP TABLE %s' % cls.sqlmeta.table)
                 err = False
             except Exception as e:
                 err = True
@@ -1345,7 +1362,7 @@ def coq_case(c, o):
         ctxb = {'decl': c['b'], 'others': [c['a']]}
         return '(CIdem %s %s %s %s)' % (
             cdecl(c['a'], ctx), cdecl(c['b'], ctxb),
-            clist(c['ops'], lambda p: '(%s, %s, %s)' % (cbool(p[0] == 'create'), cbool(p[1] == 'a'), cbool(p[2]))),
+            clist(c['ops'], lambda p: '(%d%%nat, %s, %s)' % ({'create': 0, 'drop': 1, 'rawdrop': 2}[p[0]], cbool(p[1] == 'a'), cbool(p[2]))),
             clist(o['steps'], lambda s: '(%s, %s, %s)' % (cbool(s['error']), clist(s['tables'], cstr), clist(s['indexes'], cstr))))
     if k == 'evo':
         keep = o['before'][0]
@@ -1534,8 +1551,7 @@ def oracle_evo(c, o):
         if st['table_cols'] != cls_cols:
             return {'failures': [{'kind': 'out_of_step', 'step': k, 'op': op[0], 'error': st['error'],
                                   'class': cls_cols, 'table': st['table_cols']}]}
-        if st['error'] is not None:
-            return {'failures': [{'kind': 'evo_error', 'step': k, 'op': op[0], 'error': st['error']}]}
+        # (a statement the engine refuses is fine as long as class and table stay in step)
         tcols = st['table_cols']
         kept = [x for x in keep if x in tcols]
         now = [[r[tcols.index(x)] for x in kept] for r in st['rows']]
@@ -1560,7 +1576,7 @@ def oracle_idem(c, o):
     for k, (op, st) in enumerate(zip(c['ops'], o['steps'])):
         t = ta if op[1] == 'a' else tb
         state = (st['tables'], st['indexes'])
-        if op[2]:
+        if op[2] and op[0] != 'rawdrop':
             if st['error']:
                 fails.append({'kind': 'if_flag_error', 'step': k, 'op': op})
             if op[0] == 'create' and t not in st['tables']:
